@@ -255,6 +255,8 @@ pub(crate) enum ExprErrorKind {
     UnassignedVariable(String),
     #[error("Division by zero")]
     DivisionByZero,
+    #[error("random({0}) has no value to choose from")]
+    EmptyRandomRange(i64),
 }
 
 /// Could not construct static iterator
